@@ -688,75 +688,125 @@ class RIConvert(Contract):
 # ----------------------------------------------------------------------------
 # junction -> transcript: the deletion records
 # ----------------------------------------------------------------------------
+class _Run16:
+    """interjacent = []: only appended to; its elements are, by the obligations at each append, the exons met in walk order"""
+    def __init__(self, owner, c):
+        self.owner, self.c = owner, c
+
+    def sym_method(self, I, name, a, k):
+        if name == 'append' and len(a) == 1:
+            o, h = self.owner, self.owner._cur.h
+            i = a[0]
+            I.e.prove('C16/interjacent/collected-exon-is-the-next-one-in-walk-order-and-lies-inside-the-junction-gap',
+                      z3.And(i == o.at(self.c), 0 <= i, i < h.n, o.inside(i)) if is_sym_int(i) or isinstance(i, int) else False)
+            self.c = self.c + 1
+            return None
+        raise Unsupported(f'interjacent.{name}')
+
+    def sym_view(self, I):
+        return FnView(self.c, lambda t: self.owner.at(t if is_z3(t) else z3.IntVal(t)), tag='interjacent (walk order)')
+
+    def sym_len(self, I):
+        return self.c
+
+    def sym_truth(self, I):
+        return self.c > 0
+
+
 @register
 class InterjacentExons(Contract):
     """the exons between the two ends of a junction, seen from the aligned side: the maximal run of consecutive exons right after the exon
     that ends at the junction's upstream end (or, if that end is not aligned, right before the exon that starts at its downstream start)
-    that lie entirely inside [upstream_end, downstream_start], returned in ascending order"""
+    that lie entirely inside [upstream_end, downstream_start], returned in ascending order. (Every obligation is quantifier-free: the
+    sortedness of the exons is assumed at the exon positions involved; that every exon between the first and the last of the run lies
+    inside as well is the lemma skipped_bases_lie_in_the_hull)"""
     path, qualname, props = SJ, 'SpliceJunctionTranscriptAlignment.get_interjacent_exons', ('C16',)
     declared_raises = ['ValueError']
     models = (install_exon_identity,)
     assumptions = ('requires (contract of align_to_transcript): an index is -1 or the position of the exon with that boundary (neither side aligned: '
-                   'nothing lies between); exons sorted, non-empty, disjoint and non-adjacent',)
+                   'nothing lies between); exons sorted, non-empty, disjoint and non-adjacent (assumed as ground instances at the positions involved)',)
 
     def setup(self, I):
         e = I.e
-        st = types.SimpleNamespace()
+        st = types.SimpleNamespace(terms=[])
         st.h = mk_tx_tagged(I, gene_id='G')
         h = st.h
-        for a in h.axioms:
-            e.assume(a)
+        e.assume(h.n >= 1)
         st.U, st.D = e.int('junction_upstream_end'), e.int('junction_downstream_start')
         st.ue, st.ds = e.int('upstream_end_index'), e.int('downstream_start_index')
         e.assume(z3.And(st.U < st.D, z3.Or(st.ue == -1, z3.And(0 <= st.ue, st.ue < h.n, h.e[st.ue] == st.U)),
                         z3.Or(st.ds == -1, z3.And(0 <= st.ds, st.ds < h.n, h.s[st.ds] == st.D))))
+        self._cur = st
+        for t in (st.ue, st.ds, self.at(z3.IntVal(0))):
+            self.term(I, t)
         junction = SymObj('SpliceJunction', upstream_start=None, upstream_end=st.U, downstream_start=st.D, downstream_end=None, gene_id='G', chrom='chr1')
         st.args = [SymObj('SpliceJunctionTranscriptAlignment', junction=junction, tx_model=h.obj, upstream_start_index=-1, upstream_end_index=st.ue,
                           downstream_start_index=st.ds, downstream_end_index=-1, upstream_novel=True, downstream_novel=True)]
-        self._cur = st
         return st
+
+    def term(self, I, t):
+        """ground instances of "exons non-empty, sorted, disjoint, non-adjacent" for the exon position t against all earlier ones"""
+        st, h = self._cur, self._cur.h
+        inr = lambda q: z3.And(0 <= q, q < h.n)
+        facts = [z3.Implies(inr(t), z3.And(h.s[t] < h.e[t], h.s[t] >= 0))]
+        for u in st.terms:
+            facts.append(z3.Implies(z3.And(inr(t), inr(u), t < u), h.e[t] < h.s[u]))
+            facts.append(z3.Implies(z3.And(inr(t), inr(u), u < t), h.e[u] < h.s[t]))
+        st.terms.append(t)
+        I.e.assume(z3.And(*facts))
 
     def inside(self, i):
         st = self._cur
         return z3.And(st.U <= st.h.s[i], st.h.e[i] <= st.D)
 
+    def at(self, q):
+        """the q-th exon of the walk: forwards from the exon ending at the upstream end when there is one, else backwards from the exon
+        starting at the downstream start (decided from the indices, not from a local of the code)"""
+        st = self._cur
+        return z3.If(st.ue > -1, st.ue + 1 + q, st.ds - 1 - q)
+
+    def straddles(self, i):
+        st, h = self._cur, self._cur.h
+        return z3.If(st.ue > -1, z3.And(h.s[i] < st.D, st.D < h.e[i]), z3.And(h.s[i] < st.U, st.U < h.e[i]))
+
     def havoc(self, I, env, k):
-        from pyvc.symlist import SymList
-        env['interjacent'] = SymList(I, 'interjacent')
+        c = I.e.int('n_collected')
+        env['interjacent'] = _Run16(self, c)
+        for t in (self.at(k), self.at(k - 1), self.at(c - 1), self.at(c)):
+            self.term(I, t)
 
     def inv(self, I, env, k):
-        st, h = self._cur, self._cur.h
         lst = env['interjacent']
         if isinstance(lst, list):
             return [('nothing-collected-at-entry', len(lst) == 0)]
-        # the walk starts next to the aligned exon: forwards from the exon ending at the upstream end when there is one, else backwards
-        # from the exon starting at the downstream start (decided from the indices, not from a local of the code)
-        fwd = st.ue > -1
-        c = lst.length
-        t = z3.Int('t_run')
-        at = lambda q: z3.If(fwd, st.ue + 1 + q, st.ds - 1 - q)
-        cur_skipped = at(k - 1)
-        overlap = z3.If(fwd, z3.And(h.s[cur_skipped] < st.D, st.D < h.e[cur_skipped]), z3.And(h.s[cur_skipped] < st.U, st.U < h.e[cur_skipped]))
-        return [('collected=the-run-of-inside-exons-scanned-so-far', z3.And(0 <= c, c <= k, z3.ForAll([t], z3.Implies(z3.And(0 <= t, t < c), z3.And(lst.arr[t] == at(t), self.inside(at(t))))))),
-                ('at-most-one-exon-straddling-the-far-end-was-passed', z3.Or(c == k, z3.And(c == k - 1, k >= 1, overlap)))]
+        if not isinstance(lst, _Run16):
+            return [('the-collection-is-only-appended-to', False)]
+        c = lst.c
+        # the collected exons are an initial piece of the walk; once a scanned exon was not collected (it is not inside the gap) nothing
+        # more is collected (an append proves "next in walk order", which then fails)
+        return [('collected=the-initial-run-of-the-walk-up-to-the-first-exon-not-inside-the-gap', z3.And(c <= k, z3.Implies(c < k, z3.Not(self.inside(self.at(c)))))),
+                ('first-and-last-collected-exon-lie-inside-the-junction-gap', z3.And(c >= 0, z3.Implies(c > 0, z3.And(self.inside(self.at(z3.IntVal(0))), self.inside(self.at(c - 1))))))]
 
     @property
     def loops(self):
         return {0: LoopSpec(inv=self.inv, havoc=self.havoc)}
 
     def post_return(self, I, st, ret):
-        h = st.h
+        h, e = st.h, I.e
         view = I.as_view(ret)
         n = view.length()
         n = n if is_z3(n) else z3.IntVal(n)
-        t = z3.Int('t_ret')
         fwd = st.ue > -1
         first = z3.If(fwd, st.ue + 1, st.ds - n)
-        nxt = z3.If(fwd, st.ue + 1 + n, st.ds - 1 - n)
+        nxt = self.at(n)
+        for t in (first, first + n - 1, nxt):
+            self.term(I, t)
+        t = e.int('t_any_position_of_the_result')
         el = (lambda q: view.get(q)) if not (isinstance(ret, list) and not ret) else (lambda q: q)
-        I.e.prove('C16/interjacent/consecutive-exons-inside-the-junction-gap-in-ascending-order',
-                  z3.And(n >= 0, z3.ForAll([t], z3.Implies(z3.And(0 <= t, t < n), z3.And(el(t) == first + t, 0 <= first + t, first + t < h.n, self.inside(first + t))))))
-        I.e.prove('C16/interjacent/run-is-maximal', z3.Or(nxt < 0, nxt >= h.n, z3.Not(self.inside(nxt))))
+        e.prove('C16/interjacent/consecutive-exons-inside-the-junction-gap-in-ascending-order',
+                z3.And(n >= 0, z3.Implies(z3.And(0 <= t, t < n), z3.And(el(t) == first + t, 0 <= first + t, first + t < h.n)),
+                       z3.Implies(n > 0, z3.And(self.inside(first), self.inside(first + n - 1)))))
+        e.prove('C16/interjacent/run-is-maximal', z3.Or(nxt < 0, nxt >= h.n, z3.Not(self.inside(nxt))))
 
 
 class _Spanning(Contract):
